@@ -86,7 +86,7 @@ Print Assumptions C11_no_leftovers_checker_complete.
 Definition ex_dir : fs :=
   [ (data 1, [107; 10; 49; 10]); (data 2, [107; 10; 50; 10]); (data 3, [107; 10; 51; 10]);
     (lockp 3, []); ((KRLock 7, 2), []) ]%N.         (* competing holders: a writer on 3, a reader on 2 *)
-Definition ex_cfg := mkCfg false [10]%N.
+Definition ex_cfg := mkCfg false.
 
 Example C11_fresh_nonvacuous : C11_fresh ex_dir.
 Proof. intros t. unfold ex_dir, lookup, rlockp, path_eqb. simpl. destruct (N.eqb 1 t), (N.eqb 2 t), (N.eqb 3 t); reflexivity. Qed.
@@ -94,14 +94,14 @@ Proof. intros t. unfold ex_dir, lookup, rlockp, path_eqb. simpl. destruct (N.eqb
 (* UPDATE t1; CREATE TABLE n (11); SELECT t1 (cached); then a statement fails: everything is rolled
    back -- 13 calls, the created table is gone, t1 keeps its bytes, the competitors' files remain *)
 Example C11_error_run :
-  let s := run_process ex_cfg ex_dir [AUpdate 1 (Some [107; 10; 57]%N) None; ACreate 11 [97]%N None; ARead 1 None; AError]
+  let s := run_process ex_cfg ex_dir [AUpdate 1 (Some ([107; 10; 57], [10])%N) None; ACreate 11 ([97], [10])%N None; ARead 1 None; AError]
                        (ACommit [] [] [] None) [] in
   length (p_tr s) = 13%nat /\ fs_eqb (p_fs s) ex_dir = true /\ p_done s = [] /\ no_leftovers ex_dir (p_fs s) = true.
 Proof. vm_compute. repeat split; reflexivity. Qed.
 
 (* the same program ending normally commits both tables and leaves no control file of its own *)
 Example C11_success_run :
-  let s := run_process ex_cfg ex_dir [AUpdate 1 (Some [107; 10; 57]%N) None; ACreate 11 [97]%N None; ARead 1 None]
+  let s := run_process ex_cfg ex_dir [AUpdate 1 (Some ([107; 10; 57], [10])%N) None; ACreate 11 ([97], [10])%N None; ARead 1 None]
                        (ACommit [] [] [] None) [] in
   lookup (p_fs s) (data 1) = Some [107; 10; 57; 10]%N /\ lookup (p_fs s) (data 11) = Some [97; 10]%N
   /\ no_leftovers ex_dir (p_fs s) = true /\ length (p_tr s) = 19%nat.
@@ -120,7 +120,7 @@ Proof. vm_compute. repeat split; reflexivity. Qed.
 (* the final COMMIT fails after 4 calls of its writing phase (created table written, temp file of
    table 1 truncated; a failing write, or cancellation): nothing is committed, nothing is left *)
 Example C11_cancelled_commit :
-  let s := run_process ex_cfg ex_dir [AUpdate 1 (Some [107]%N) None; ACreate 11 [97]%N None]
+  let s := run_process ex_cfg ex_dir [AUpdate 1 (Some ([107], [10])%N) None; ACreate 11 ([97], [10])%N None]
                        (ACommit [] [] [] (Some 4%nat)) [] in
   fs_eqb (p_fs s) ex_dir = true /\ p_done s = [] /\ existsb (fun o => op_eqb o (OTrunc (tempp 1))) (p_tr s) = true.
 Proof. vm_compute. repeat split; reflexivity. Qed.
